@@ -2,6 +2,15 @@
 //@include prelude/wal_reqs.rs
 //@struct src/raft_log/wal/mod.rs RaftLogWAL allpub sub=#Arc<AtomicU64>#DoneSeq# attr=#[verifier::reject_recursive_types(T)]
 
+/// `sm.payload_cache.clone()`: the Arc clone of the cache lock handed to the worker (rule E6)
+pub struct SharedCacheHandle {}
+/// event: a flush worker thread was started that tracks exactly this file entry (FlushWorker::new + spawn; the worker side is unit U7)
+pub uninterp spec fn ev_worker_started<T: Types>(fe: FileEntry<T>) -> bool;
+/// the last log id recorded by the newest closed chunk (None when there is none): entries up to it live in closed chunk files
+pub open spec fn last_closed_last<T: Types>(closed: Map<ChunkId, ClosedChunk<T>>, v: Option<T::LogId>) -> bool {
+    (closed.dom().is_empty() ==> v is None) && (forall|k: ChunkId| is_max_key(closed, k) ==> v == closed[k].state.last)
+}
+
 /// magnitudes assumed small (DESIGN 8.6): 2^62
 pub open spec fn small(n: int) -> bool { n < 0x4000_0000_0000_0000 }
 
